@@ -214,6 +214,45 @@ static void inv_vector(void) {
     free(x);
 }
 
+
+/* ---- `lockprobe` (THREADSAFE containers): lock(); a nested public call (it takes the lock again,
+ * qvector's addlast three levels deep); ANOTHER thread tries the container's mutex: it must be
+ * busy (the outer lock() is still in force); unlock(); the other thread tries again: free.
+ * Prints `lockprobe <result of the nested call> held=<0|1> after=<0|1>`; `nolock` for a container
+ * without a mutex. Not a windowed call. */
+#include <pthread.h>
+#include "qinternal.h"
+static void *probe_thread(void *m) {
+    pthread_mutex_t *mx = &((qmutex_t *) m)->mutex;
+    int r = pthread_mutex_trylock(mx);
+    if (r == 0) pthread_mutex_unlock(mx);
+    return (void *) (intptr_t) (r != 0);          /* 1 = busy */
+}
+static int probe_busy(void *qmutex) {
+    pthread_t t; void *res = NULL;
+    if (pthread_create(&t, NULL, probe_thread, qmutex) != 0) return -1;
+    pthread_join(t, &res);
+    return (int) (intptr_t) res;
+}
+
+static void do_lockprobe(void) {
+    unsigned char *x = calloc(1, OS ? OS : 1);
+    memset(x, 0x4c, OS);
+    printf("lockprobe ");
+    if (V->qmutex == NULL) {
+        errno = 0; bool r = qvector_addlast(V, x); int e = errno;
+        res_bool(r, e); printf(" nolock");
+    } else {
+        V->lock(V);
+        errno = 0; bool r = qvector_addlast(V, x); int e = errno;       /* addlast -> addat -> resize */
+        int held = probe_busy(V->qmutex);
+        V->unlock(V);
+        int after = probe_busy(V->qmutex);
+        res_bool(r, e); printf(" held=%d after=%d", held, after);
+    }
+    free(x);
+}
+
 static int do_op(int nw, char **w) {
     const char *op = w[0];
     bytes_t a = {0, 0};
@@ -288,6 +327,8 @@ static int do_op(int nw, char **w) {
         printf(" end %s", errname(errno));
     } else if (!strcmp(op, "inv") && nw == 1) {
         inv_vector();
+    } else if (!strcmp(op, "lockprobe") && nw == 1) {
+        do_lockprobe();
     } else if (!strcmp(op, "reset") && nw == 1) {
         memset(&cur, 0, sizeof(cur)); printf("ok");
     } else if (!strcmp(op, "next") && nw == 2) {
